@@ -357,7 +357,7 @@ func runC20(e *Env) error {
 	reps := 20
 	procs := 4
 	if e.Thorough() {
-		n, reps, procs = 600, 30, 8
+		n, reps, procs = 180, 24, 6
 	}
 	seeds := make([]uint64, n)
 	for i := range seeds {
@@ -662,7 +662,7 @@ func runC20(e *Env) error {
 		}
 		reps := 150
 		if e.Thorough() {
-			reps = 400
+			reps = 300
 		}
 		for rep := 0; rep < reps; rep++ {
 			if again := run(); again != first {
@@ -793,7 +793,7 @@ func c20RealmOrder(e *Env) {
 			pr := hx.NewRand(e.Seed, fmt.Sprintf("realm-order-%s-%d", d, vi))
 			orders := 40
 			if e.Thorough() {
-				orders = 400
+				orders = 200
 			}
 			for k := 0; k < orders; k++ {
 				perm := append([]string{}, variant.blocks...)
